@@ -20,7 +20,7 @@ LEXEMES = ["int", "char", "void", "return", "if", "else", "while", "for", "struc
            "é", "世", "\n", "\t", " ", "\r", "\r\n", "\x0c", "#define", "#include", "#if", "#endif", "#else",
            "defined", "L'a'", "u8\"x\"", "__attribute__", "asm"]
 
-REDUCED = "a0'\"\\\n/*.x?+"
+REDUCED = "a0'\"\\\n/*.x?+=:"
 
 
 class C05(Engine):
@@ -32,7 +32,7 @@ class C05(Engine):
     rule_text = ("Every workload program (repository samples, generated conforming/violating files, literal families) x both file "
                  "types x every token boundary (prefix_tok) and every single-token deletion (tok_del) is executed, plus the middle of "
                  "every multi-character token (prefix_chr), seeded token replace/insert/swap/pairs, byte flips, non-ASCII and invalid "
-                 "UTF-8 insertions, and the tokenizer alone on all strings of length <=4 over a 12-character alphabet, seeded lexeme "
+                 "UTF-8 insertions, and the tokenizer alone on all strings of length <=4 over a 14-character alphabet, seeded lexeme "
                  "sequences and long runs. A run is non-trivial when the delivered content differs from the base program and the "
                  "analysis reached the rule loop; distinct = distinct (file type, fault kind, type of the last token delivered, "
                  "last recognised statement, scope at the end) contexts.")
